@@ -64,6 +64,13 @@ def run(rng):
     eta = -1.0 if proto else rng.choice([-1.0, -1.0, 0.0, 0.5, 0.9])
     est = make(rng, eta, slow=proto)
     epochs = rng.choice([2, 3]) if proto else rng.choice([1, 1, 2, 3])
+    if not proto and n != m and rng.random() < 0.5:
+        # non-square matrices the library can fit at all: a row module at rho = 1 gives every (distinct) row its own
+        # category, so the row veto (recorded finding: IndexError on non-square data) is never consulted
+        import artlib
+        mk0 = est._verif_mk_b
+        est = artlib.BARTMAP(artlib.FuzzyART(rho=1.0, alpha=1e-3, beta=1.0), mk0(), eta=float(eta))
+        est._verif_mk_b = mk0
     if not proto and rng.random() < 0.15:
         # a pruning row module on rows with structure: a few rows unlike everything (their categories never reach phi and
         # are pruned - possibly all categories of a round), then groups of near copies of one profile (categories that
@@ -263,6 +270,7 @@ def main():
     v.assumptions = ["the row veto (scipy's Pearson correlation against eta) is an oracle of the model: a function of the row number, taken from the implementation "
                      "in the correspondence and universally quantified in the theorems; it fails on non-square matrices (known finding)",
                      "whole-fit theorems and correspondence: one epoch, modules with the generic search (the exact regime uses Fuzzy ART on square grid matrices)"]
+    v.cov["added_after_wave_7"] = '15% structured matrices with a pruning TopoART row module (lone rows, then groups of near copies; tau in {2,3}, phi = 2); the recorded noise-row finding is matched by its exact pattern (rows 0 .. n-r-1, r = sample_counter mod tau)'
     sys.exit(v.finish())
 
 
